@@ -268,7 +268,7 @@ func (check typecheck) binaryExpr(n *node) error {
 		if zeroConst(c1) && (c0.rval.IsValid() || !isFloat(c0.typ.TypeOf()) && !isComplex(c0.typ.TypeOf())) {
 			return n.cfgErrorf("invalid operation: division by zero")
 		}
-		if c0.rval.IsValid() && c1.rval.IsValid() {
+		if c0.rval.IsValid() && c1.rval.IsValid() && c0.typ.untyped && c1.typ.untyped {
 			// Avoid constant conversions below to ensure correct constant integer quotient.
 			return nil
 		}
